@@ -17,6 +17,22 @@ FORBIDDEN = re.compile(
     r"bypass_check|Admit\s+Obligations)\b|Unset\s+Guard|Unset\s+Positivity|Unset\s+Universe|type-in-type|impredicative-set|native_compute")
 
 
+import fcntl, contextlib
+
+
+@contextlib.contextmanager
+def coq_lock():
+    """serialise everything that reads or writes coq/*.vo (several checks may run at once)"""
+    os.makedirs(CACHE, exist_ok=True)
+    f = open(os.path.join(CACHE, "coq.lock"), "w")
+    try:
+        fcntl.flock(f, fcntl.LOCK_EX)
+        yield
+    finally:
+        fcntl.flock(f, fcntl.LOCK_UN)
+        f.close()
+
+
 class Infra(Exception):
     """infrastructure failure (exit 2) — never a violation"""
 
@@ -54,8 +70,9 @@ def coq_makefile():
 
 def coq_make(targets, timeout=1500):
     """full .vo build of the given targets (and their dependencies); returns (ok, log)"""
-    coq_makefile()
-    rc, o, e = sh(["make", "-j%d" % NPROC] + targets, cwd=COQ, timeout=timeout)
+    with coq_lock():
+        coq_makefile()
+        rc, o, e = sh(["make", "-j%d" % NPROC] + targets, cwd=COQ, timeout=timeout)
     return rc == 0, o + e
 
 
@@ -111,7 +128,8 @@ def coq_props(prop):
     args += ["-w", "-notation-overridden,-deprecated-hint-without-locality,-deprecated-syntactic-definition"]
     tmp = os.path.join(CACHE, "props")
     os.makedirs(tmp, exist_ok=True)
-    rc, o, e = sh(args + ["-o", os.path.join(tmp, prop + ".vo"), pv], cwd=COQ, timeout=900)
+    with coq_lock():
+        rc, o, e = sh(args + ["-o", os.path.join(tmp, prop + ".vo"), pv], cwd=COQ, timeout=900)
     if rc != 0:
         res["ok"] = False
         res["log"] = (o + e)[-4000:]
@@ -165,7 +183,7 @@ def coq_eval(prop, imports, terms, timeout=900, width=16):
 
     results = [None] * n
     errs = []
-    with ThreadPoolExecutor(max_workers=nsh) as ex:
+    with coq_lock(), ThreadPoolExecutor(max_workers=nsh) as ex:
         for rc, o, e in ex.map(run, range(nsh)):
             if rc != 0:
                 errs.append((e or o)[-1500:])
@@ -344,6 +362,8 @@ class Run:
             "trusted_base": proof_info.get("trusted_base", []),
             "traces_validated_against_impl": cov.get("evaluations", 0),
         })
+        if not ok_proofs:
+            cov.pop("discharged"); cov["proofs_ok"] = False
         cov.update(self.notes)
         ev = {
             "property_id": self.prop, "tier": self.tier, "seed": self.seed, "level": level,
